@@ -37,7 +37,10 @@ def gen_history(rng, ids, n, with_disconnect):
         else:
             h.append(('chat', '{"text":"%s"}' % ('x' * rng.randrange(0, 30))))
     if with_disconnect:
-        h.append(('disc',))
+        # the reason is a chat component: any JSON value (an object, a bare string, a list of components, null ...) - or whatever
+        # text the server chose to send; the client closes the connection whatever it says
+        h.append(('disc', rng.choice(['{"text":"bye"}', '{"text":"bye"}', '"Server closed"', '["a", {"text": "b"}]', 'null', '5', 'true',
+                                      '{"text": 5, "extra": ["x", {"translate": "y"}]}', '{"translate":"multiplayer.disconnect.kicked"}', 'not json', '', '{}', '[]'])))
         if rng.random() < 0.5:
             h.append(('ka', 5))          # sent after the disconnect: must not be answered
     return h
@@ -59,7 +62,7 @@ def server_frames(ids, h, thr):
                 body += bytes(16)
             fr.append(proto.frame(ids.chat, body, thr))
         elif it[0] == 'disc':
-            fr.append(proto.frame(ids.play_disconnect, proto.string('{"text":"bye"}'), thr))
+            fr.append(proto.frame(ids.play_disconnect, proto.string(it[1] if len(it) > 1 else '{"text":"bye"}'), thr))
     return fr
 
 
